@@ -186,6 +186,9 @@ fn line(x0: f64, y0: f64, x1: f64, y1: f64, t: f64) -> (f64, f64) {
     // the straight line through (x0,y0), (x1,y1) at t, and the rounding allowance granted to a binary64 evaluation
     let r = (t - x0) / (x1 - x0);
     let v = y0 + r * (y1 - y0);
+    // proved for in-segment targets (C16_line_error_binary64, u = EPS/2): |v - line| <= 3u max(|y0|,|y1|) + (4u + 2^-1075)|y1 - y0| + 2^-1073
+    // <= (7u + 2^-1075)(|y0| + |y1|) + 2^-1073; the allowance below (64u(1 + |r|)(|y0| + |y1|) + 64 * 2^-1074) also covers the few roundings of
+    // the reference `v` itself and the extrapolation formulas (|r| > 1), and is never tighter than what is proved
     let tol = 32.0 * EPS * (1.0 + r.abs()) * (y0.abs() + y1.abs()) + 64.0 * 5e-324;
     (v, tol)
 }
@@ -240,9 +243,12 @@ pub fn oracle(tier: &str, seed: u64) -> (u64, Vec<Finding>) {
                         let (w, tol) = line(x[j], y[j], x[j + 1], y[j + 1], t);
                         if !(w.is_finite() && tol.is_finite()) { continue; }
                         if !((v[0] - w).abs() <= tol) { out.push(Finding { class: "inside:off-line".into(), what: format!("returned {:e}, the chord of segment {} gives {:e}", v[0], j, w), input: inp(&[t]) }); }
+                        // "between the ordinates" holds on binary64 only up to rounding. Proved (C16_between_up_to_rounding_binary64, for every
+                        // finite in-range target and finite result, u = 2^-53 = EPS/2):  lo - 3u|lo| - 2^-1073 <= v <= hi + 3u|hi| + 2^-1073.
+                        // The allowance below, 2*EPS*|.| + 1e-322 = 4u|.| + ~10*2^-1073, is wider than the proved bound (never tighter).
                         let (lo, hi) = (y[j].min(y[j + 1]), y[j].max(y[j + 1]));
                         if !(v[0] >= lo - 2.0 * EPS * lo.abs() - 1e-322 && v[0] <= hi + 2.0 * EPS * hi.abs() + 1e-322) {
-                            out.push(Finding { class: "inside:not-between-ordinates".into(), what: format!("returned {:e}, outside [{:e}, {:e}] by more than 2 ulp", v[0], lo, hi), input: inp(&[t]) });
+                            out.push(Finding { class: "inside:not-between-ordinates".into(), what: format!("returned {:e}, outside [{:e}, {:e}] by more than 2 ulp (4 units roundoff; 3 are proved attainable at most)", v[0], lo, hi), input: inp(&[t]) });
                         }
                     }
                 }
